@@ -409,7 +409,9 @@ def verif_in_from_trace(trace):
         lhs = step.get('lhs', '')
         if lhs == 'verif_in' or lhs.startswith('verif_in.') or lhs.startswith('verif_in['):
             for suf, lit in cgen.c_value(step.get('value')):
-                k = lhs + suf
+                k = re.sub(r'\[(\d+)[a-zA-Z]+\]', r'[\1]', lhs + suf)
+                if '$' in k:
+                    continue        # padding members
                 if k not in vals:
                     order.append(k)
                 vals[k] = lit
@@ -718,6 +720,35 @@ def write_evidence(pid, tier, sel, recs, violations, known, inconclusive, wall):
     json.dump(ev, open(os.path.join(VERIF, 'evidence', '%s.json' % pid), 'w'), indent=1)
 
 
+def calibrate(names, jobs):
+    """Record min_props (vacuity guard b) = 90% of the obligations generated today."""
+    units = load_units()
+    sel = [u for u in units if not names or u['name'] in names or u['_file'][:-5] in names]
+    for u in sel:
+        u['min_props'] = 1
+    with ThreadPoolExecutor(max_workers=jobs) as ex:
+        recs = list(ex.map(lambda u: run_unit(u, 'quick'), sel))
+    got = {r['name']: r for r in recs}
+    d = os.path.join(VERIF, 'units')
+    for fn in sorted(os.listdir(d)):
+        if not fn.endswith('.json'):
+            continue
+        path = os.path.join(d, fn)
+        arr = json.load(open(path))
+        ch = False
+        for u in arr:
+            r = got.get(u['name'])
+            if r and r['status'] == 'discharged':
+                u['min_props'] = int(r['n_props'] * 0.9)
+                ch = True
+            elif r:
+                print('not calibrated: %s (%s: %s)' % (u['name'], r['status'], (r['reason'] or '')[:200]))
+        if ch:
+            with open(path, 'w') as f:
+                f.write('[\n' + ',\n'.join(' ' + json.dumps(u) for u in arr) + '\n]\n')
+    return 0
+
+
 def replay(path):
     doc = json.load(open(path))
     units = {u['name']: u for u in load_units()}
@@ -755,7 +786,12 @@ def main():
     r.add_argument('path')
     l = sub.add_parser('list')
     l.add_argument('pid', nargs='?')
+    k = sub.add_parser('calibrate')
+    k.add_argument('names', nargs='*')
+    k.add_argument('--jobs', type=int, default=14)
     a = ap.parse_args()
+    if a.cmd == 'calibrate':
+        sys.exit(calibrate(a.names, a.jobs))
     if a.cmd == 'check':
         tier = a.tier if a.tier in ('quick', 'thorough') else 'quick'
         sys.exit(check(a.pid, tier, a.jobs, a.only, a.keep))
